@@ -142,6 +142,9 @@ func c18(c *h.Ctx) {
 	c.Case("alloc/model-witness", "logger.run plainRMW 999 l1,l2,s1,s2", true)
 
 	c18stress(c, 64, 2000)
+	if c.Thorough() {
+		c18race(c) // the race detector on a generated stress test (needs cgo; skipped with a note otherwise)
+	}
 
 	// ------------------------------------------------------------ 1. sequential traces: implementation = model, id for id
 	ntr := c.N(60, 1500)
@@ -408,7 +411,6 @@ func c18(c *h.Ctx) {
 		for i := 0; i < 10; i++ {
 			conc(128, 500)
 		}
-		c18race(c)
 	}
 }
 
